@@ -20,6 +20,8 @@ mod tzif;
 mod resolve;
 #[cfg(feature = "tz-alloc")]
 mod nopanic;
+#[cfg(feature = "tz-std")]
+mod hist;
 
 #[cfg(feature = "tz-alloc")]
 #[global_allocator]
@@ -61,6 +63,8 @@ fn main() {
             "resolve" => resolve::replay(&v["case"], &args),
             #[cfg(feature = "tz-alloc")]
             "nopanic" => nopanic::replay(&v["case"], &args),
+            #[cfg(feature = "tz-std")]
+            "hist" => hist::replay(&v["case"], &args),
             _ => {
                 eprintln!("no replay for engine {}", args.engine);
                 2
@@ -89,6 +93,10 @@ fn main() {
             "nopanic" => nopanic::run(&args),
             #[cfg(feature = "tz-alloc")]
             "nopanic-child" => nopanic::run_child(&args),
+            #[cfg(feature = "tz-std")]
+            "hist" => hist::run(&args),
+            #[cfg(feature = "tz-std")]
+            "hist-alone" => hist::run_alone(&args),
             e => {
                 eprintln!("unknown engine {e}");
                 2
